@@ -37,7 +37,9 @@ def confirm(prop, src, name):
             "confirmed_at": time.strftime("%Y-%m-%d %H:%M:%S")}
     try:
         demo_cmd = None
-        if (src / "demo.py").exists():
+        if (src / "run.sh").exists():
+            demo_cmd = f"bash {src / 'run.sh'} {wt}"             # C++ demo: build + run wrapper (a demo.py next to it only forwards to it)
+        elif (src / "demo.py").exists():
             shutil.copy(src / "demo.py", wt / "demo.py")
             demo_cmd = f"{WTPY} {wt} demo.py"
         elif (src / "run.sh").exists():
